@@ -5,6 +5,8 @@
    the boolean predicates the harness evaluates on every case.
    Definitions only. *)
 From SV Require Import Lib.Base Fam.Schema Gen.C02Tables C02.Model.
+(* the XSD lexical spaces and value maps of C06 (read-only), for comparing leaves by value *)
+From SV Require C06.Decimal C06.Floats.
 
 (* ------------------------------------------------------------------ *)
 (* the namespace infoset                                               *)
@@ -126,10 +128,33 @@ Fixpoint has_empty_xmlns (it : ritem) : bool :=
 (* ------------------------------------------------------------------ *)
 (* Python values compared as data (member order is not data)           *)
 (* ------------------------------------------------------------------ *)
+(* two leaves of one Python type denote the same value.  A leaf carries the
+   lexical text of the document (reference, model) or the canonical rendering
+   of the returned Python value (implementation); booleans, integers and
+   decimals are compared through the XSD value maps of C06 ("1" = "true",
+   "+5" = "05" = "5", "01.50" = "1.5"), everything else as text. *)
+Definition dec_same (a b : str) : bool :=
+  C06.Decimal.lex_decimal a && C06.Decimal.lex_decimal b &&
+  let '(m, k) := C06.Decimal.dec_value a in
+  let '(m', k') := C06.Decimal.dec_value b in
+  (m * C06.Decimal.pow10 k' =? m' * C06.Decimal.pow10 k)%Z.
+
+Definition leaf_same (tag : N) (a b : str) : bool :=
+  str_eqb a b ||
+  if N.eqb tag tag_bool then
+    match C06.Floats.lex_boolean_value a, C06.Floats.lex_boolean_value b with
+    | Some x, Some y => Bool.eqb x y
+    | _, _ => false
+    end
+  else if N.eqb tag tag_int then
+    C06.Floats.lex_integer a && C06.Floats.lex_integer b && dec_same a b
+  else if N.eqb tag tag_decimal then dec_same a b
+  else false.
+
 Fixpoint pyval_eqb (a b : pyval) {struct a} : bool :=
   match a, b with
   | PNone, PNone => true
-  | PLeaf t s, PLeaf t' s' => N.eqb t t' && str_eqb s s'
+  | PLeaf t s, PLeaf t' s' => N.eqb t t' && leaf_same t s s'
   | PList l, PList l' =>
       (fix go (l1 l2 : list pyval) : bool :=
          match l1, l2 with
@@ -210,6 +235,13 @@ Variable S : schema.
 Variable names : list (str * N).
 Variable uris : list (str * N).
 Variable kinds : list (N * N).
+Variable simple : list (qn * N).       (* complex types with simple content: the built-in they extend *)
+
+Definition simple_kind (ct : ctype) : option N :=
+  match find (fun p => qn_eqb (fst p) (c_ns ct, c_name ct)) simple with
+  | Some p => Some (snd p)
+  | None => None
+  end.
 
 (* a is b or derives from it by extension *)
 Definition derives (a b : ctype) : bool := existsb (ctype_eqb b) (chain_of S a).
@@ -294,6 +326,19 @@ Fixpoint ref_node (dt : rtype) (nillable : bool) (x : inode) {struct x} : option
             | _ => None
             end
         | Some (RC ct) =>
+            match simple_kind ct with
+            | Some k =>
+                (* simple content: the plain typed value, or with attributes a property
+                   object holding it as `value` beside the `_attr` members *)
+                match kids with
+                | [] => match spec_attrs ct ats [] with
+                        | None => None
+                        | Some [] => Some (PLeaf (spec_tag k) text)
+                        | Some fields => Some (PProp nm ((s_value, PLeaf (spec_tag k) text) :: fields))
+                        end
+                | _ => None
+                end
+            | None =>
             if negb (all_space text) then None else
             match spec_attrs ct ats [] with
             | None => None
@@ -322,6 +367,7 @@ Fixpoint ref_node (dt : rtype) (nillable : bool) (x : inode) {struct x} : option
                 | Some fields => Some (PObj (Some (c_ns ct, c_name ct)) fields)
                 | None => None
                 end
+            end
             end
         end
   end.
@@ -360,43 +406,67 @@ Fixpoint ref_composite (ms : list edecl) (nodes : list inode) (acc : list (str *
       end
   end.
 
-(* SOAP 1.1 / 1.2: Envelope, optional Header, Body (same namespace); document/
-   literal wrapped: the Body holds the wrapper element named by the output
-   message part; the outputs are the members of the wrapper's type: none -> None,
-   one -> its value (a list when it repeats, None when absent), several -> a
-   composite object holding the element members.  Attributes declared by the
-   wrapper's type are data too and count as outputs, so a wrapper type with
-   attributes always yields the composite object. *)
-Definition ref_reply (wq : qn) (wt : ctype) (x : inode) : option pyval :=
+(* the value of the outputs ms of an operation found as the element children
+   `nodes`: none -> None, one -> its value (a list when it repeats, None when
+   absent), several -> a composite object.  hasattrs: the response wrapper's type
+   declares attributes; they are data too and count as outputs, so such a wrapper
+   always yields the composite object (of its element members). *)
+Definition ref_outputs (ms : list edecl) (hasattrs : bool) (nodes : list inode) : option pyval :=
+  match hasattrs, ms with
+  | false, [] => Some PNone
+  | false, [d] =>
+      if e_multi d then
+        match omap (ref_top d) nodes with Some l => Some (PList l) | None => None end
+      else match nodes with
+           | [] => Some PNone
+           | [n] => ref_top d n
+           | _ => None
+           end
+  | true, [] => None
+  | _, _ =>
+      match ref_composite ms nodes [] with
+      | Some fields => Some (PObj None fields)
+      | None => None
+      end
+  end.
+
+(* SOAP 1.1 / 1.2: Envelope, optional Header, Body (same namespace).
+   document/literal wrapped: the Body holds the wrapper element named by the
+     output message part; the outputs are the members of the wrapper's type;
+   document/literal bare: the Body holds the global elements the output message
+     parts name (one part: a single value; several: the composite object);
+   rpc/literal: the Body holds the response wrapper (wq: the operation name +
+     "Response" in the namespace of soap:body), whose children are the part
+     accessors: unqualified elements named like the message parts. *)
+Definition ref_reply (wq : qn) (st : style) (x : inode) : option pyval :=
   match x with
   | IN u nm _ _ kids =>
       if negb (str_eqb nm s_Envelope && (uri_is u uri_env11 || uri_is u uri_env12)) then None else
       match find (fun k => str_eqb (i_nm k) s_Body && ostr_eqb (i_u k) u) kids with
-      | Some (IN _ _ _ _ (w :: _)) =>
-          if negb (qn_eqb (uid uris (i_u w), nid names (i_nm w)) wq) then None else
-          if negb (all_space (i_text w)) then None else
-          match members (flat_elems S wt) with
-          | None => None
-          | Some ms =>
-              match flat_attrs S wt, ms with
-              | [], [] => Some PNone
-              | [], [d] =>
-                  if e_multi d then
-                    match omap (ref_top d) (i_kids w) with Some l => Some (PList l) | None => None end
-                  else match i_kids w with
-                       | [] => Some PNone
-                       | [n] => ref_top d n
-                       | _ => None
-                       end
-              | _ :: _, [] => None
-              | _, _ =>
-                  match ref_composite ms (i_kids w) [] with
-                  | Some fields => Some (PObj None fields)
+      | Some body =>
+          match st with
+          | SBare parts =>
+              if negb (all_space (i_text body)) then None else ref_outputs parts false (i_kids body)
+          | SWrapped wt =>
+              match i_kids body with
+              | w :: _ =>
+                  if negb (qn_eqb (uid uris (i_u w), nid names (i_nm w)) wq) then None else
+                  if negb (all_space (i_text w)) then None else
+                  match members (flat_elems S wt) with
                   | None => None
+                  | Some ms => ref_outputs ms (match flat_attrs S wt with [] => false | _ => true end) (i_kids w)
                   end
+              | [] => None
+              end
+          | SRpc parts =>
+              match i_kids body with
+              | w :: _ =>
+                  if negb (qn_eqb (uid uris (i_u w), nid names (i_nm w)) wq) then None else
+                  if negb (all_space (i_text w)) then None else ref_outputs parts false (i_kids w)
+              | [] => None
               end
           end
-      | _ => None
+      | None => None
       end
   end.
 
@@ -421,6 +491,9 @@ Fixpoint flags_node (dt : rtype) (nillable : bool) (x : inode) {struct x} : list
       | Some (RB k) =>
           match text with [] => [6%N] | _ => [] end
       | Some (RC ct) =>
+          match simple_kind ct with
+          | Some _ => match text with [] => [6%N] | _ => [] end
+          | None =>
           match kids with
           | [] => match text with
                   | [] => if no_real_attrs ats then [5%N] else []
@@ -443,25 +516,40 @@ Fixpoint flags_node (dt : rtype) (nillable : bool) (x : inode) {struct x} : list
                      end
                  end) [] kids
           end
+          end
       end
   end.
 
-Definition flags_reply (wt : ctype) (x : inode) : list N :=
+Definition flags_outputs (ms : list edecl) (nodes : list inode) : list N :=
+  flat_map (fun n =>
+              match find (fun d => decl_matches d (i_u n) (i_nm n)) ms with
+              | Some d =>
+                  match resolve_tref S kinds (e_name d) (e_type d) with
+                  | Some t => flags_node t (e_nil d) n
+                  | None => []
+                  end
+              | None => []
+              end) nodes.
+
+Definition flags_reply (st : style) (x : inode) : list N :=
   match x with
   | IN u nm _ _ kids =>
       match find (fun k => str_eqb (i_nm k) s_Body && ostr_eqb (i_u k) u) kids with
-      | Some (IN _ _ _ _ (w :: _)) =>
-          flat_map (fun n =>
-                      match find (fun f => match f with FE d _ _ => decl_matches d (i_u n) (i_nm n) | _ => false end)
-                                 (flat_elems S wt) with
-                      | Some (FE d _ _) =>
-                          match resolve_tref S kinds (e_name d) (e_type d) with
-                          | Some t => flags_node t (e_nil d) n
-                          | None => []
-                          end
-                      | _ => []
-                      end) (i_kids w)
-      | _ => []
+      | Some body =>
+          match st with
+          | SBare parts => flags_outputs parts (i_kids body)
+          | SWrapped wt =>
+              match i_kids body, members (flat_elems S wt) with
+              | w :: _, Some ms => flags_outputs ms (i_kids w)
+              | _, _ => []
+              end
+          | SRpc parts =>
+              match i_kids body with
+              | w :: _ => flags_outputs parts (i_kids w)
+              | [] => []
+              end
+          end
+      | None => []
       end
   end.
 
@@ -470,32 +558,40 @@ End Ref.
 (* ------------------------------------------------------------------ *)
 (* the cases the harness writes and the predicates it evaluates        *)
 (* ------------------------------------------------------------------ *)
+Inductive cstyle := CWrapped (wt : qn) | CBare (parts : list edecl) | CRpc (parts : list edecl).
+
 Record case := mkCase {
   c_schema : schema;
   c_names : list (str * N);
   c_uris : list (str * N);
   c_kinds : list (N * N);
   c_globals : list (qn * qn);
-  c_wq : qn;                      (* the output wrapper element *)
-  c_wt : qn;                      (* its type *)
+  c_simple : list (qn * N);       (* simple-content types and the built-in they extend *)
+  c_wq : qn;                      (* the response wrapper element (wrapped, rpc) *)
+  c_style : cstyle;               (* binding style of the output and what it is made of *)
   c_raw : ritem;                  (* the reply as the non-namespace parser delivers it *)
   c_info : inode;                 (* the namespace infoset expat (namespace mode) computed *)
   c_expect : pyval;               (* the value the writer serialised *)
   c_impl : dres pyval             (* what the invocation returned *)
 }.
 
-Definition case_wt (c : case) : option ctype := find_type (c_schema c) (c_wt c).
+Definition case_style (c : case) : option style :=
+  match c_style c with
+  | CWrapped q => match find_type (c_schema c) q with Some wt => Some (SWrapped wt) | None => None end
+  | CBare ps => Some (SBare ps)
+  | CRpc ps => Some (SRpc ps)
+  end.
 
 Definition model_reply_with (sq pr n1 : bool) (c : case) : dres pyval :=
-  match case_wt c with
-  | Some wt => reply (c_schema c) (c_names c) (c_uris c) (c_kinds c) (c_globals c) sq pr n1 wt (c_raw c)
+  match case_style c with
+  | Some st => reply (c_schema c) (c_names c) (c_uris c) (c_kinds c) (c_globals c) sq pr n1 st (c_raw c)
   | None => DOther
   end.
 Definition model_reply (c : case) : dres pyval := model_reply_with false true true c.
 
 Definition spec_reply (c : case) : option pyval :=
-  match case_wt c with
-  | Some wt => ref_reply (c_schema c) (c_names c) (c_uris c) (c_kinds c) (c_wq c) wt (c_info c)
+  match case_style c with
+  | Some st => ref_reply (c_schema c) (c_names c) (c_uris c) (c_kinds c) (c_simple c) (c_wq c) st (c_info c)
   | None => None
   end.
 
@@ -526,8 +622,8 @@ Definition infoset_agrees (c : case) : bool :=
   end.
 
 Definition case_flags (c : case) : list N :=
-  match case_wt c with
-  | Some wt => flags_reply (c_schema c) (c_names c) (c_uris c) (c_kinds c) wt (c_info c)
+  match case_style c with
+  | Some st => flags_reply (c_schema c) (c_names c) (c_uris c) (c_kinds c) (c_simple c) st (c_info c)
   | None => []
   end.
 (* 3 = promotePrefixes changes the outcome; 4 = qualifying an unprefixed xsi:type
